@@ -180,7 +180,7 @@ func (av arrayValue) PropertyValue(iv Value) Value {
 func (mv mapValue) Contains(iv Value) bool {
 	mr := reflect.ValueOf(mv.value)
 	ir := reflect.ValueOf(iv.Interface())
-	if ir.IsValid() && mr.Type().Key() == ir.Type() {
+	if ir.IsValid() && mr.Type().Key() == ir.Type() && ir.Comparable() {
 		return mr.MapIndex(ir).IsValid()
 	}
 	return false
